@@ -1556,6 +1556,36 @@ func c17CopyCase(w *World, res *CaseResult, srcKind, elemKind string, inlinedSou
 		if inlinedSource {
 			res.Obs["copies-of-inlined-sources"]++
 		}
+		// the type of one must not follow the type of the other (both directions), in memory and after a commit + reload
+		for _, pair := range [][2]*Node{{cp, src}, {src, cp}} {
+			a := pair[0]
+			nt := TI{ID: 40 + uint64(r.Intn(50))}
+			var err error
+			if a.Kind == KArr {
+				err = w.OpArraySetType(a, nt)
+			} else {
+				err = w.OpMapSetType(a, nt)
+			}
+			if err != nil {
+				return err
+			}
+			if err := w.CheckDeep(); err != nil {
+				return err
+			}
+		}
+		if err := w.CommitAndCheck(false, 2); err != nil {
+			return err
+		}
+		if err := w.CheckCold(w.led.Snapshot(), w.roots, func() []atree.SlabID {
+			ids := make([]atree.SlabID, len(w.roots))
+			for i, n := range w.roots {
+				ids[i] = rootID(n)
+			}
+			return ids
+		}(), w.roots, true); err != nil {
+			return err
+		}
+		res.Obs["copy-type-independence-checks"]++
 		// diverge: mutate the copy; source (possibly inlined in holder) must be unchanged
 		if err := w.diverge(cp, src, 5); err != nil {
 			return err
